@@ -819,6 +819,77 @@ func typeSwitchArms(fd *ast.FuncDecl) []armFacts {
 	return arms
 }
 
+// sharedSleepArms reads the other spelling of a retry switch: the arms only decide (`sleep = true`,
+// `sleep = counter > N`, or return), and one block after the switch — `if sleep { … sleepAndIncreaseBackoff … }`
+// followed by the end of the loop body — does the waiting and the retry. It is rewritten into the
+// per-arm facts of the spelling in which every arm sleeps and continues itself; a `default` arm that
+// only returns is what falling out of the switch and returning is in that spelling, and is left out.
+func sharedSleepArms(fd *ast.FuncDecl, arms []armFacts) []armFacts {
+	var flag string
+	var ts *ast.TypeSwitchStmt
+	var body []ast.Stmt
+	ast.Inspect(fd.Body, func(n ast.Node) bool {
+		if fs, ok := n.(*ast.ForStmt); ok && ts == nil {
+			for i, st := range fs.Body.List {
+				if t, ok := st.(*ast.TypeSwitchStmt); ok {
+					ts, body = t, fs.Body.List[i+1:]
+				}
+			}
+		}
+		return ts == nil
+	})
+	if ts == nil {
+		return arms
+	}
+	for _, st := range body {
+		if is, ok := st.(*ast.IfStmt); ok {
+			if id, ok := is.Cond.(*ast.Ident); ok && strings.Contains(nodeStr(is.Body), "sleepAndIncreaseBackoff(") {
+				flag = id.Name
+			}
+		}
+	}
+	if flag == "" {
+		return arms
+	}
+	var out []armFacts
+	for i, c := range ts.Body.List {
+		cc := c.(*ast.CaseClause)
+		a := arms[i]
+		returns := false
+		for _, st := range cc.Body {
+			switch x := st.(type) {
+			case *ast.ReturnStmt:
+				returns = true
+			case *ast.AssignStmt:
+				if len(x.Lhs) == 1 && len(x.Rhs) == 1 && exprStr(x.Lhs[0]) == flag {
+					if exprStr(x.Rhs[0]) == "true" {
+						a.sleeps = true
+					} else if be, ok := x.Rhs[0].(*ast.BinaryExpr); ok && be.Op == token.GTR {
+						if id, ok := be.X.(*ast.Ident); ok {
+							if n, ok := intExpr(be.Y, map[string]string{}); ok {
+								a.sleeps, a.guardVar, a.guardN = true, id.Name, n
+							}
+						}
+					}
+				}
+			}
+		}
+		var keep []string
+		for _, m := range a.assigns {
+			if m != "true:"+flag {
+				keep = append(keep, m)
+			}
+		}
+		a.assigns = keep
+		a.continues = !returns
+		if returns && !a.sleeps && len(a.incs) == 0 && len(a.assigns) == 0 && len(a.types) == 1 && a.types[0] == "default" {
+			continue
+		}
+		out = append(out, a)
+	}
+	return out
+}
+
 func emitArms(g *gen, name string, arms []armFacts) {
 	var items []string
 	for _, a := range arms {
@@ -903,6 +974,7 @@ func genRetryLoop(repo, out string) {
 	counterName := map[string]string{"SendRPC": "serverErrorCount", "SendBatch": "immediateRetries"}
 	if fd := findMethod(f, "client", "SendRPC"); fd != nil {
 		arms := typeSwitchArms(fd)
+		arms = sharedSleepArms(fd, arms)
 		for _, a := range arms {
 			if a.guardVar != "" {
 				counterName["SendRPC"] = a.guardVar
